@@ -302,6 +302,9 @@ fn main() {
     if args[1] == "c08-seq" {
         c11::c08_seq_child(&args[2]);
     }
+    if args[1] == "c08-overflow" {
+        c11::c08_overflow_child(&args[2]);
+    }
     if args[1] == "e2-child" {
         e2run::child(&args[2], &args[3], args[4].parse().unwrap_or(0), args[5].parse().unwrap_or(1));
     }
@@ -343,8 +346,44 @@ fn main() {
             // handle / restart / drop histories and an outliving injector thread on the real
             // Nucleo under the controlled scheduler
             e2run::collect("C11", &args[2], &mut rep);
+            // concurrent writers on the vector itself: the loom bodies with drop accounting
+            // (sibling binary; run.sh builds it and passes its path)
+            let mut loom_execs = 0u64;
+            if let Ok(e3) = std::env::var("VERIF_E3_BIN") {
+                match std::process::Command::new(&e3).args(["c11-loom", &args[2]]).output() {
+                    Ok(out) if out.status.success() => {
+                        let stdout = String::from_utf8_lossy(&out.stdout).to_string();
+                        let v: common::Value = serde_json::from_str(stdout.lines().last().unwrap_or("")).unwrap_or(common::Value::Null);
+                        loom_execs = v["executions"].as_u64().unwrap_or(0);
+                        if loom_execs == 0 && v["violations"].as_array().map_or(true, |a| a.is_empty()) {
+                            machinery_failure("the loom drop-accounting child reported no executions");
+                        }
+                        rep.acc.evaluations += loom_execs;
+                        rep.acc.states += loom_execs;
+                        rep.acc.transitions += loom_execs;
+                        rep.acc.traces += loom_execs;
+                        for vl in v["violations"].as_array().cloned().unwrap_or_default() {
+                            let sig = vl["sig"].as_str().unwrap_or("C11/loom/?").to_owned();
+                            let what = vl["what"].as_str().unwrap_or("").to_owned();
+                            let ex = vl["example"].clone();
+                            rep.acc.violation(&sig, &what, || ex);
+                        }
+                        for n in v["notes"].as_array().cloned().unwrap_or_default() {
+                            rep.caps.push(n.as_str().unwrap_or("").to_owned());
+                        }
+                        if v["all_unbounded"].as_bool() != Some(true) {
+                            rep.caps.push("some loom bodies are explored up to a preemption bound (see the C08 evidence for the bound of each body)".into());
+                        }
+                    }
+                    Ok(out) => machinery_failure(&format!("loom drop-accounting child failed: {:?}", out.status)),
+                    Err(e) => machinery_failure(&format!("cannot run {e3}: {e}")),
+                }
+            } else {
+                machinery_failure("VERIF_E3_BIN not set (run through run.sh)");
+            }
+            rep.extra("loom_executions_with_drop_accounting", json!(loom_execs));
             let e2_bound = rep.bound.clone();
-            rep.bound = format!("sequential: every history up to the depth bound over 12 operations from 18 start states ({seq_hist} histories); front end: {e2_bound}");
+            rep.bound = format!("sequential: every history up to the depth bound over 12 operations from 18 start states, each with a drop-logging and a plain item type ({seq_hist} histories); concurrent vector: every loom body of C08 with drop accounting; front end: {e2_bound}");
             rep.rule = "complete enumeration of operation histories (vector level: push/extend with lying iterators and panicking callbacks; front end: injector/clone/drop/restart/push/tick/drop-matcher, tick branching on timeout vs completion, plus an injector thread that outlives restarts and the matcher); non-trivial = a lying iterator or panicking callback is involved / the schedule deviates from the default".into();
             rep.finish()
         }
